@@ -9,7 +9,7 @@ func init() { props["C15"] = checkC15 }
 
 func checkC15(ctx *Ctx) {
 	res := ctx.Res
-	res.Rule = "for every name the library defines (the 20 e.Name() values) plus 'vers', near-miss and unknown names, x the commands compare / sort / contains / unknown / none x argument vectors of 0..5 arguments drawn from: accepted versions and ranges of that ecosystem, accepted versions of OTHER ecosystems (inputs two ecosystems order or accept differently), VERS ranges, rejected texts, texts with spaces, quotes, leading dashes and the empty string: run(w,args) of the CLI built from /repo/cmd (in-process through the verif hook; a sample also as real processes) is compared with the library called directly: same result text and exit 0 on success with exactly one line, exit 1 and a diagnostic that is not a result on every failure; the CLI model (Coq, extracted) with the library answered by the implementation is compared on the same vectors. non-trivial = distinct argument vectors whose library answer is a success"
+	res.Rule = "for every name the library defines (the 20 e.Name() values) plus 'vers', near-miss and unknown names, x the commands compare / sort / contains / unknown / none x argument vectors of 0..5 arguments drawn from: accepted versions and ranges of that ecosystem, accepted versions of OTHER ecosystems (inputs two ecosystems order or accept differently), VERS ranges, rejected texts, texts with spaces, quotes, leading dashes, Unicode white space (U+00A0, U+0085, U+2003, U+3000 in place of or next to ASCII blanks) and the empty string: run(w,args) of the CLI built from /repo/cmd (in-process through the verif hook; a sample also as real processes) is compared with the library called directly: same result text and exit 0 on success with exactly one line, exit 1 and a diagnostic that is not a result on every failure; the CLI model (Coq, extracted) with the library answered by the implementation is compared on the same vectors. non-trivial = distinct argument vectors whose library answer is a success"
 	per := 260
 	if !ctx.Quick {
 		per = 5000
@@ -81,6 +81,9 @@ func checkC15(ctx *Ctx) {
 					a = anyVersion() // discriminating: a version of some other ecosystem
 				default:
 					a = r.Pick(odd)
+				}
+				if r.Chance(5) {
+					a = unicodeSpaces(r, a)
 				}
 				av = append(av, a)
 			}
@@ -221,5 +224,31 @@ func checkC15(ctx *Ctx) {
 				res.disagree(Disagreement{Stream: "CLI.run", Eco: "cli", Request: reqs[k], Input: cases[i], Impl: impl, Model: a})
 			}
 		}
+	}
+}
+
+// unicodeSpaces: the argument with its ASCII blanks replaced by (or, if it has none, with one
+// inserted at a token boundary or at an end of) a Unicode white-space character.  The library
+// decides what such text means; the CLI must pass it through unchanged.
+func unicodeSpaces(r *RNG, a string) string {
+	sp := r.Pick([]string{"\u00a0", "\u0085", "\u2003", "\u3000", "\u00a0", "\u2028"})
+	if strings.Contains(a, " ") {
+		if r.Chance(50) {
+			return strings.ReplaceAll(a, " ", sp)
+		}
+		return strings.Replace(a, " ", sp, 1)
+	}
+	ts := tokens(a)
+	switch r.Intn(4) {
+	case 0:
+		return a + sp
+	case 1:
+		return sp + a
+	default:
+		if len(ts) < 2 {
+			return a + sp
+		}
+		i := 1 + r.Intn(len(ts)-1)
+		return strings.Join(ts[:i], "") + sp + strings.Join(ts[i:], "")
 	}
 }
